@@ -194,9 +194,15 @@ class SyncedDict(SyncedCollection, MutableMapping):
 
         """
         if _mapping_resolver.get_type(data) == "MAPPING":
-            self._update(data)
-            with self._thread_lock:
-                self._save()
+            if self._root is None:
+                self._update(data)
+                with self._thread_lock:
+                    self._save()
+            else:
+                # A nested collection may be stale: other handles can have
+                # changed the rest of the data, so it must be reloaded first.
+                with self._load_and_save:
+                    self._update(data)
         else:
             raise ValueError(
                 "Unsupported type: {}. The data must be a mapping or None.".format(
@@ -231,9 +237,15 @@ class SyncedDict(SyncedCollection, MutableMapping):
         return ret
 
     def clear(self):  # noqa: D102
-        self._data = {}
-        with self._thread_lock:
-            self._save()
+        if self._root is None:
+            self._data = {}
+            with self._thread_lock:
+                self._save()
+        else:
+            # A nested collection may be stale: other handles can have
+            # changed the rest of the data, so it must be reloaded first.
+            with self._load_and_save:
+                self._data.clear()
 
     def update(self, other=None, **kwargs):  # noqa: D102
         if other is not None:
